@@ -1,8 +1,297 @@
+/-
+Driver ops of C17.
+
+  plughist     history of register / find / enumerate calls  → results of the model and of the one-table reference
+  openmatrix   a world (which opens fail, isfile, kpsewhich, environ) + one call of open_raw / open_unicode
+               → events and outcome
+  entrypoints  one reader / writer entry point of a class wired as (unicode_io, overridden methods), with the
+               codec given as a finite table by the harness (computed with the real codecs) → what the plug-in's
+               core is handed / what is returned or written
+  pathfn       os.path.splitext / posixpath.join
+-/
 import PybtexModel.Drv.Json
+import PybtexModel.Model.IO
+import PybtexModel.Spec.Plugins
+import PybtexModel.Gen.Plugins
 open Lean
 namespace Pybtex.Drv.C17
+open Pybtex Pybtex.IO
+
+/-! ### JSON helpers -/
+
+def bytesToJson (b : Bytes) : Json := arr (b.map fun x => nat x.toNat)
+
+def jsonToBytes (j : Json) : Except String Bytes := do
+  let a ← j.getArr?
+  a.toList.mapM fun x => do pure (UInt8.ofNat (← x.getNat?))
+
+def getBytes (j : Json) (k : String) : Except String Bytes := do jsonToBytes (← j.getObjVal? k)
+
+def getOptStr (j : Json) (k : String) : Except String (Option Str) :=
+  match j.getObjVal? k with
+  | .ok .null => pure none
+  | .ok v => do pure (some (← jsonToStr v))
+  | .error _ => pure none
+
+def streamJ : Stream → Json
+  | .text s => obj [("kind", Json.str "text"), ("data", strToJson s)]
+  | .binary b => obj [("kind", Json.str "binary"), ("data", bytesToJson b)]
+
+/-! ### plughist -/
+
+def plugErrJ (e : PlugErr) : Json :=
+  let kind := match e with
+    | .groupNotFound _ => "PluginGroupNotFound"
+    | .notFound _ _ => "PluginNotFound"
+    | .suffixNoPeriod => "ValueError"
+  obj [("err", Json.str kind), ("msg", strToJson e.message)]
+
+def plugResJ : PlugRes → Json
+  | .bool b => Json.bool b
+  | .cls k => obj [("cls", strToJson k)]
+  | .err e => plugErrJ e
+
+inductive HOp
+  | plug (op : PlugOp)
+  | enumerate (g : Str)
+
+def parseNameArg (j : Json) : Except String NameArg := do
+  match j with
+  | .null => pure .none
+  | _ =>
+    let t ← (← j.getObjVal? "t").getStr?
+    match t with
+    | "none" => pure .none
+    | "str" => pure (.str (← getStr j "v"))
+    | "cls" => pure (.cls (← getStr j "v"))
+    | _ => throw s!"unknown name kind {t}"
+
+def parseHOp (j : Json) : Except String HOp := do
+  let o ← (← j.getObjVal? "o").getStr?
+  match o with
+  | "register" => pure (.plug (.register (← getStr j "g") (← getStr j "n") (← getStr j "k") (← getBool j "force")))
+  | "find" => pure (.plug (.find (← getStr j "g") (← parseNameArg (← j.getObjVal? "name")) (← getOptStr j "filename")))
+  | "enum" => pure (.enumerate (← getStr j "g"))
+  | _ => throw s!"unknown plughist op {o}"
+
+/-- the one-table reference, run next to the model (same argument checks, `Spec.Plugins` for the table) -/
+def specFindD (T : Spec.Plugins.Table) (group : Str) (name : NameArg) (filename : Option Str) : Except PlugErr Cls :=
+  match name with
+  | .cls k => .ok k
+  | _ =>
+    match dget Gen.defaultPlugins group with
+    | none => .error (.groupNotFound group)
+    | some dflt =>
+      let opt (e : PlugErr) (o : Option Cls) : Except PlugErr Cls := match o with | some k => .ok k | none => .error e
+      match name with
+      | .str (c :: n) => opt (.notFound group (c :: n)) (Spec.Plugins.findName T group (c :: n))
+      | _ =>
+        match filename with
+        | some (c :: f) => opt (.notFound (group ++ ".suffixes".toList) (splitext (c :: f)).2)
+                             (Spec.Plugins.findSuffix T group (splitext (c :: f)).2)
+        | _ => opt (.notFound group dflt) (Spec.Plugins.load T group dflt)
+
+def runHist (R : Registry) (T : Spec.Plugins.Table) : List HOp → List Json × List Json
+  | [] => ([], [])
+  | .enumerate g :: ops =>
+    let rest := runHist R T ops
+    (obj [("names", strs (enumeratePluginNames Gen.installedPlugins R g))] :: rest.1, Json.null :: rest.2)
+  | .plug op :: ops =>
+    let r := plugStep Gen.installedPlugins Gen.defaultPlugins R op
+    let s : Spec.Plugins.Table × Json := match op with
+      | .register g n k f =>
+        match baseGroup g n with
+        | .error e => (T, plugErrJ e)
+        | .ok base =>
+          if dhas Gen.defaultPlugins base then
+            let x := Spec.Plugins.register T g n k f
+            (x.1, Json.bool x.2)
+          else (T, plugErrJ (.groupNotFound base))
+      | .find g n f =>
+        match specFindD T g n f with
+        | .ok k => (T, obj [("cls", strToJson k)])
+        | .error e => (T, plugErrJ e)
+    let rest := runHist r.1 s.1 ops
+    (plugResJ r.2 :: rest.1, s.2 :: rest.2)
+
+def plughist (j : Json) : Except String Json := do
+  let ops ← (← getArr j "ops").mapM parseHOp
+  let r := runHist [] (installedLookup Gen.installedPlugins) ops
+  pure (obj [("out", arr r.1), ("spec", arr r.2)])
+
+/-! ### openmatrix -/
+
+def eventJ : Event → Json
+  | .locate p => obj [("ev", Json.str "locate"), ("path", strToJson p)]
+  | .tryOpen p m e => obj [("ev", Json.str "open"), ("path", strToJson p), ("mode", strToJson m), ("encoding", optJ strToJson e)]
+
+def parsePairs (l : List Json) : Except String (List (Str × Str)) :=
+  l.mapM fun p => do
+    let a ← p.getArr?
+    pure (← jsonToStr a[0]!, ← jsonToStr a[1]!)
+
+/-- the world of one request: a handle is the path that was opened -/
+def parseWorld (w : Json) : Except String (Env Path) := do
+  let isfile ← getStrList w "isfile"
+  let fail ← parsePairs (← getArr w "fail")
+  let environ ← parsePairs (← getArr w "environ")
+  let loc ← w.getObjVal? "locate"
+  let lk ← (← loc.getObjVal? "kind").getStr?
+  let locate : Path → Except IOErr (Option Path) ←
+    match lk with
+    | "none" => pure (fun _ => .ok none)
+    | "found" => do let q ← getStr loc "path"; pure (fun _ => .ok (some q))
+    | "error" => do let m ← getStr loc "strerror"; pure (fun _ => .error ⟨m⟩)
+    | _ => throw s!"unknown locate kind {lk}"
+  pure { opener := fun p _ _ => match dget fail p with | some m => .error ⟨m⟩ | none => .ok p
+         isFile := fun p => isfile.contains p
+         locate := locate
+         environ := environ }
+
+def openedJ : Except OpenErr (Opened Path Unit) → Json
+  | .ok (.passthrough _) => obj [("ok", Json.str "passthrough")]
+  | .ok (.handle h) => obj [("ok", obj [("handle", strToJson h)])]
+  | .error e => obj [("err", obj [("kind", Json.str "PybtexError"), ("filename", strToJson e.filename),
+                                   ("message", strToJson e.message)])]
+
+def openmatrix (j : Json) : Except String Json := do
+  let env ← parseWorld (← j.getObjVal? "world")
+  let fn ← (← j.getObjVal? "fn").getStr?
+  let mode ← getStr j "mode"
+  let enc ← getOptStr j "encoding"
+  let argk ← (← j.getObjVal? "arg").getStr?
+  let path ← getStr j "path"
+  let file : FileArg Unit := if argk == "stream" then .stream () else .path path
+  let r ← match fn with
+    | "raw" => pure (openRaw env file mode enc)
+    | "unicode" => pure (openUnicode env file mode enc)
+    | _ => throw s!"unknown fn {fn}"
+  pure (obj [("out", obj [("events", arr (r.1.map eventJ)), ("result", openedJ r.2)])])
+
+/-! ### entrypoints -/
+
+def parseCodec (l : List Json) : Except String Codec := do
+  let pairs ← l.mapM fun p => do
+    let a ← p.getArr?
+    pure ((← jsonToStr a[0]!), (← jsonToBytes a[1]!))
+  pure { enc := fun s => match pairs.find? (fun p => p.1 == s) with | some p => p.2 | none => []
+         dec := fun b => match pairs.find? (fun p => p.2 == b) with
+           | some p => .ok p.1
+           | none => .error "undecodable".toList }
+
+/-- a reader core that records what it is handed -/
+def recReader : ReaderCore (List (String × Stream)) Unit (String × Stream) where
+  parseStream := fun d st => .ok (d ++ [("parse_stream", st)])
+  parseText := fun d s => .ok (d ++ [("parse_string", .text s)])
+  fromBytes := fun b => .ok ("ET.bytes", .binary b)
+  fromStr := fun s => .ok ("ET.str", .text s)
+  fromTextStream := fun s => .ok ("ET.textstream", .text s)
+  parseTree := fun d t => .ok (d ++ [t])
+
+def recJ (l : List (String × Stream)) : Json :=
+  arr (l.map fun r => obj [("core", Json.str r.1), ("got", streamJ r.2)])
+
+def rerrJ : RErr Unit → Json
+  | .open e => obj [("err", Json.str "PybtexError"), ("message", strToJson e.message)]
+  | .decodeInFile _ f => obj [("err", Json.str "PybtexError"), ("filename", strToJson f)]
+  | .unicodeDecode _ => obj [("err", Json.str "UnicodeDecodeError")]
+  | .wrongStream => obj [("err", Json.str "TypeError")]
+  | .core _ => obj [("err", Json.str "core")]
+
+def werrJ : WErr Unit → Json
+  | .open e => obj [("err", Json.str "PybtexError"), ("message", strToJson e.message)]
+  | .unicodeDecode _ => obj [("err", Json.str "UnicodeDecodeError")]
+  | .core _ => obj [("err", Json.str "core")]
+
+/-- the bytes behind a handle (= the path that was opened) -/
+def epContent (files : List (Str × Bytes)) (h : Path) : Bytes :=
+  match files.find? (fun f => f.1 == h) with
+  | some f => f.2
+  | none => []
+
+def parseStreamArg (j : Json) : Except String Stream := do
+  let k ← (← j.getObjVal? "kind").getStr?
+  match k with
+  | "text" => pure (.text (← getStr j "data"))
+  | "binary" => pure (.binary (← getBytes j "data"))
+  | _ => throw s!"unknown stream kind {k}"
+
+def epReply (events : List Event) (result : Json) : Json :=
+  obj [("events", arr (events.map eventJ)), ("result", result)]
+
+def readEntry (k : ReaderKind) (c : Codec) (encName : Str) (env : Env Path) (files : List (Str × Bytes))
+    (j : Json) : Except String Json := do
+  let entry ← (← j.getObjVal? "entry").getStr?
+  let res : List Event × Except (RErr Unit) (List (String × Stream)) ← match entry with
+    | "parse_string" => pure ([], parseString k recReader c [] (← getStr j "s"))
+    | "parse_bytes" => pure ([], parseBytes k recReader c [] (← getBytes j "b"))
+    | "parse_stream" => pure ([], parseStream k recReader [] (← parseStreamArg (← j.getObjVal? "stream")))
+    | "parse_file_path" =>
+      pure (parseFile k recReader c encName env (epContent files) [] (.path (← getStr j "path")) none)
+    | "parse_file_stream" =>
+      pure (parseFile k recReader c encName env (epContent files) []
+        (.stream (← parseStreamArg (← j.getObjVal? "stream"))) none)
+    | "parse_files" =>
+      pure (parseFiles k recReader c encName env (epContent files) (← getOptStr j "suffix") []
+        (← getStrList j "bases"))
+    | _ => throw s!"unknown reader entry {entry}"
+  pure (epReply res.1 (match res.2 with | .ok l => recJ l | .error e => rerrJ e))
+
+def writeEntry (k : WriterKind) (c utf8 : Codec) (encName : Str) (env : Env Path) (text : Str)
+    (j : Json) : Except String Json := do
+  let entry ← (← j.getObjVal? "entry").getStr?
+  let core : WriterCore Unit Unit :=
+    { writeText := fun _ => .ok text, writeBytes := fun _ => .ok (c.enc text), xmlBody := fun _ => .ok text }
+  let writtenJ (r : List Event × Except (WErr Unit) (Written Path Unit)) : Json :=
+    epReply r.1 (match r.2 with
+      | .ok (.file h b) => obj [("file", strToJson h), ("bytes", bytesToJson b)]
+      | .ok (.stream _ p) => obj [("stream", streamJ p)]
+      | .error e => werrJ e)
+  match entry with
+  | "to_string" =>
+    pure (epReply [] (match toStr k core c utf8 encName () with | .ok s => strToJson s | .error e => werrJ e))
+  | "to_bytes" =>
+    pure (epReply [] (match toBytes k core c encName () with | .ok b => bytesToJson b | .error e => werrJ e))
+  | "write_file_path" =>
+    pure (writtenJ (writeFile k core c encName env () (.path (← getStr j "path") : FileArg Unit)))
+  | "write_file_stream" =>
+    pure (writtenJ (writeFile k core c encName env () (.stream () : FileArg Unit)))
+  | _ => throw s!"unknown writer entry {entry}"
+
+def entrypoints (j : Json) : Except String Json := do
+  let side ← (← j.getObjVal? "side").getStr?
+  let u ← getBool j "u"
+  let ov ← getStrList j "ov"
+  let c ← parseCodec (← getArr j "codec")
+  let utf8 ← parseCodec (← getArr j "utf8")
+  let encName ← getStr j "enc"
+  let files ← (← getArr j "files").mapM fun p => do
+    let a ← p.getArr?
+    pure ((← jsonToStr a[0]!), (← jsonToBytes a[1]!))
+  let env ← parseWorld (← j.getObjVal? "world")
+  let entries ← getArr j "entries"
+  if side == "read" then
+    match readerKindOf u ov with
+    | none => pure (obj [("out", Json.str "unknown-wiring")])
+    | some k => pure (obj [("out", arr (← entries.mapM (readEntry k c encName env files)))])
+  else
+    match writerKindOf u ov with
+    | none => pure (obj [("out", Json.str "unknown-wiring")])
+    | some k =>
+      let text ← getStr j "text"
+      pure (obj [("out", arr (← entries.mapM (writeEntry k c utf8 encName env text)))])
+
+/-! ### pathfn -/
+
+def pathfn (j : Json) : Except String Json := do
+  let fn ← (← j.getObjVal? "fn").getStr?
+  match fn with
+  | "splitext" => let r := splitext (← getStr j "a"); pure (obj [("out", arr [strToJson r.1, strToJson r.2])])
+  | "join" => pure (obj [("out", strToJson (posixJoin (← getStr j "a") (← getStr j "b")))])
+  | _ => throw s!"unknown pathfn {fn}"
 
 /-- driver ops of this property: (op name, handler) -/
-def handlers : List (String × (Json → Except String Json)) := []
+def handlers : List (String × (Json → Except String Json)) :=
+  [("plughist", plughist), ("openmatrix", openmatrix), ("entrypoints", entrypoints), ("pathfn", pathfn)]
 
 end Pybtex.Drv.C17
